@@ -132,7 +132,7 @@ Args(k) ==
       [] k = "un" -> {Act(k, d, a, "-", "neg", lr, FALSE, 0, <<>>) : d \in VARS, a \in VARS, lr \in BOOLEAN}
       [] k = "deref_write" -> {Act(k, d, "-", "-", "-", FALSE, FALSE, 0, <<v>>) : d \in VARS, v \in SETVALS}
       [] k \in {"eq", "pcmp", "cmp"} -> {Act(k, "-", a, b, "-", FALSE, FALSE, 0, <<>>) : a \in VARS, b \in VARS}
-      [] k \in {"hash", "debug", "deref_read"} -> {Act(k, "-", a, "-", "-", FALSE, FALSE, 0, <<>>) : a \in VARS}
+      [] k \in {"hash", "debug", "debug_alt", "deref_read"} -> {Act(k, "-", a, "-", "-", FALSE, FALSE, 0, <<>>) : a \in VARS}
 
 Call ==
     /\ pc \in Kinds
